@@ -103,12 +103,43 @@ let show_ov = function
   | VErr e -> show_err e
   | VPanic -> "panic"
 
+(* ---- memory observables (SliceMemModel3.mem_run3 = SliceMemModel2.mem_run + KeysValues): for every result slice "r@nil", "r@empty" (cap 0),
+   "r@<k>+<offset>,<len>,<cap>" when it lies in argument array k, "r@new,<len>" otherwise;
+   then every argument array cell by cell ---- *)
+let layout_of_ty ty =
+  match split_on '@' ty with
+  | [_] -> (0, 0)
+  | [_; l] -> (match split_on ',' l with
+               | [o; sp] -> (int_of_string o, int_of_string sp)
+               | _ -> failwith "layout")
+  | _ -> failwith "layout"
+
+let show_res nargs = function
+  | None -> "r@nil"
+  | Some h ->
+    let open SliceMemModel in
+    let a = int_of_nat h.h_arr and o = int_of_nat h.h_off and n = int_of_nat h.h_len and c = int_of_nat h.h_cap in
+    if c = 0 then "r@empty"
+    else if a < nargs then Printf.sprintf "r@%d+%d,%d,%d" a o n c
+    else Printf.sprintf "r@new,%d" n
+
+let show_mem ((nargs, results), store) =
+  let nargs = int_of_nat nargs in
+  let arrs = List.filteri (fun i _ -> i < nargs) store in
+  String.concat " "
+    (List.map (show_res nargs) results
+     @ List.mapi (fun k a -> Printf.sprintf "A%d[%s]" k (String.concat "," (List.map z_to_string a))) arrs)
+
 let run () =
   iter_lines (fun line ->
     match words line with
-    | _ty :: rest ->
-      (match (try Some (call_of_words rest) with Failure _ | Invalid_argument _ -> None) with
-       | Some c -> print_endline (String.concat " " (List.map show_ov (SliceModel.run c)))
+    | ty :: rest ->
+      (match (try Some (call_of_words rest, layout_of_ty ty) with Failure _ | Invalid_argument _ -> None) with
+       | Some (c, (off, spare)) ->
+         let main = String.concat " " (List.map show_ov (SliceModel.run c)) in
+         (match SliceMemModel3.mem_run3 (nat_of_int off) (nat_of_int spare) c with
+          | Some m -> print_endline (main ^ " | " ^ show_mem m)
+          | None -> print_endline main)
        | None -> print_endline "badcase")
     | [] -> print_endline "badcase")
 
